@@ -206,20 +206,23 @@ func (this *badgerWAL) Save(hardState raftpb.HardState, entries []raftpb.Entry, 
 	batch := this.db.NewWriteBatch()
 	defer batch.Cancel()
 
+	if !etcdRaft.IsEmptySnap(snapshot) {
+		// A received snapshot replaces the log. Delete the stored log before
+		// anything is written: the last operation on a key wins within a batch,
+		// so the entry written for the snapshot index must not be followed by its delete.
+		if err := this.deleteEntriesFromIndex(batch, 0); err != nil {
+			return err
+		}
+		this.cache.Delete(cacheLastIndexKey)
+	}
 	if err := this.writeEntries(batch, entries); err != nil {
 		return err
 	}
 	if err := this.writeHardState(batch, hardState); err != nil {
 		return err
 	}
-	if !etcdRaft.IsEmptySnap(snapshot) {
-		if err := this.writeSnapshot(batch, snapshot); err != nil {
-			return err
-		}
-		// Delete the log
-		if err := this.deleteEntriesFromIndex(batch, 0); err != nil {
-			return err
-		}
+	if err := this.writeSnapshot(batch, snapshot); err != nil {
+		return err
 	}
 
 	return batch.Flush()
